@@ -275,6 +275,26 @@ def net_case(draw, tier='quick'):
     case = {'mode': 'net', 'spec': spec}
     if any(p['type'] == 'HEAD' for p in spec['pumps']) and draw(st.integers(0, 2)) == 0:
         case['edit_curves'] = draw(st.sampled_from([0.8, 1.25, 0.6]))
+    o = spec['opts']
+    nsteps = o['duration'] // o['hyd']
+    plain = [p for p in spec['pipes'] if not p['cv']]
+    if nsteps >= 3 and plain and 'edit_curves' not in case and draw(st.integers(0, 2)) == 0:
+        # history inside one run: controls change a physical attribute of a pipe (WNTR rebuilds the coefficient through its
+        # ModelUpdater), the same attribute more than once; the law is judged with the value in effect at each row
+        ac = []
+        for _ in range(draw(st.integers(1, 2))):
+            p = plain[draw(st.integers(0, len(plain) - 1))]
+            attr = draw(st.sampled_from(['roughness', 'roughness', 'minor_loss', 'diameter']))
+            vals = {'roughness': [70.0, 100.0, 130.0, 150.0], 'minor_loss': [0.0, 2.0, 8.0, 25.0],
+                    'diameter': [0.15, 0.2, 0.3, 0.4]}[attr]
+            for _k in range(draw(st.integers(2, 3))):
+                ac.append({'link': p['name'], 'attr': attr, 'value': draw(st.sampled_from(vals)),
+                           'at': o['hyd'] * draw(st.integers(1, nsteps))})
+        # one command per (link, attribute, instant)
+        seen = {}
+        for c in ac:
+            seen[(c['link'], c['attr'], c['at'])] = c
+        spec['attr_controls'] = sorted(seen.values(), key=lambda c: (c['at'], c['link'], c['attr']))
     return case
 
 
@@ -759,6 +779,12 @@ def net_check(spec, edit=None):
     try:
         wn = S.build_wn(spec)
         wn.reset_initial_values()
+        if spec.get('attr_controls'):
+            from wntr.network.controls import Control, ControlAction
+            tags.append('history:attribute_controls')
+            for i, c in enumerate(spec['attr_controls']):
+                act = ControlAction(wn.get_link(c['link']), c['attr'], c['value'])
+                wn.add_control('attr%d' % i, Control._time_control(wn, int(c['at']), 'SIM_TIME', False, act))
     except Exception as e:
         return fail(exc_bucket(e, 'build'), 'building the model raised %r' % e, tags)
     out = _net_pass(spec, wn, tags)
@@ -826,7 +852,15 @@ def _net_pass(spec, wn, tags):
                     tags.append('rep:pipe_in_band/' + approx)
             if kind == 'valve' and st_ == 1 and q < -L.TOL:
                 tags.append('rep:%s/open/negative_flow' % l['type'])
-            bad = _judge_link(spec, kind, l, st_, q, float(head[a][k]), float(head[b][k]), float(sett[name][k]), approx, fits)
+            l_eff = l
+            if kind == 'pipe' and spec.get('attr_controls'):
+                key = {'roughness': 'C', 'minor_loss': 'minor', 'diameter': 'diam'}
+                for c in spec['attr_controls']:       # sorted by time: the last command at or before this row wins
+                    if c['link'] == name and c['at'] <= t:
+                        if l_eff is l:
+                            l_eff = dict(l)
+                        l_eff[key[c['attr']]] = c['value']
+            bad = _judge_link(spec, kind, l_eff, st_, q, float(head[a][k]), float(head[b][k]), float(sett[name][k]), approx, fits)
             if bad:
                 bads.setdefault(bad[0], 't=%s %s' % (t, bad[1]))
             if st_ != 0 and (kind != 'pipe' or l['cv']):
